@@ -153,6 +153,7 @@ type vSys struct {
 	got        []vGot
 	lostAsleep int
 	connected  bool
+	single     bool // the sequence consists of one operation
 }
 
 const vC26Client = "c"
@@ -289,8 +290,11 @@ func (y *vSys) op(kind int) {
 			ok = vAnd(vAnd(y.got[n].topic == "w/new", bytes.Equal(y.got[n].payload, p1)), vAnd(y.got[n+1].topic == "w/new", bytes.Equal(y.got[n+1].payload, p2)))
 		}
 		vAssert(ok, "C26.burst_reaches_handler")
-		// the multi-level wildcard also matches its parent level (MQTT 3.1.1, 4.7.1.2)
-		y.deliver("w", 0)
+		// the multi-level wildcard also matches its parent level (MQTT 3.1.1, 4.7.1.2);
+		// checked in the single-operation sequence only (it multiplies the paths of longer ones)
+		if y.single {
+			y.deliver("w", 0)
+		}
 	case 4: // Subscribe to a short topic
 		q := vC26Qos("sub_qos")
 		y.call(func() error { return cl.Subscribe("ab", q, y.handler("short")) })
@@ -398,6 +402,7 @@ func (y *vSys) op(kind int) {
 // VH_C26_seq(k, o1, o2, o3): Connect, up to three operations (0 = none), Disconnect.
 func VH_C26_seq(k, o1, o2, o3 int) {
 	y := vNewSys(k)
+	y.single = o2 == 0 && o3 == 0
 	y.call(func() error { return y.cl.Connect() })
 	vAssert(vAnd(y.b.connects == 1, client.VState(y.cl) == util.StateActive), "C26.connect_effect")
 	for _, o := range []int{o1, o2, o3} {
